@@ -940,7 +940,9 @@ class TaskEventsManager():
             itask.state(TASK_STATUS_WAITING)
             and message != TASK_OUTPUT_EXPIRED
             # Polling in live mode only:
-            and itask.run_mode == RunMode.LIVE
+            # (the run mode is not set for a task reloaded on restart until
+            # it is submitted again)
+            and itask.run_mode in {RunMode.LIVE, None}
             and (
                 (
                     # task has a submit-retry lined up
